@@ -225,8 +225,40 @@ mod verif_kani {
         // a value that writes another unit than it promised: validation error, no (wrongly scaled) number
         let (m, e, s, _, _) = run_with_unit(Lying { obs: Observation::Unsigned(x as u64), writes: Unit::Second(NegativeScale::Micro), as_string: false });
         assert!(m == 0 && e == 1 && s == 0);
+        // ... whatever the other unit is: unitless, a count, the same family at another scale, another family
+        let wrong: u8 = kani::any();
+        let other = match wrong % 6 {
+            0 => Unit::None,
+            1 => Unit::Count,
+            2 => Unit::Percent,
+            3 => Unit::Second(NegativeScale::One),
+            4 => Unit::Byte(PositiveScale::One),
+            _ => Unit::BitPerSecond(PositiveScale::Kilo),
+        };
+        let (m, e, s, _, _) = run_with_unit(Lying { obs: Observation::Unsigned(x as u64), writes: other, as_string: false });
+        assert!(m == 0 && e == 1 && s == 0);
         // a unit attached to a string: validation error
         let (m, e, s, _, _) = run_with_unit(Lying { obs: Observation::Unsigned(0), writes: Unit::None, as_string: true });
         assert!(m == 0 && e == 1 && s == 0);
+    }
+
+    // Durations are reported in milliseconds (concrete probes, NOT a proof: the two float operations relate a symbolic Duration to its
+    // millisecond value in a way CBMC did not decide in 900 s): one Floating observation, unit Second(Milli), value bit-for-bit
+    // (secs + nanos / 1e9) * 1000 computed offline.
+    #[kani::proof]
+    #[kani::unwind(11)]
+    fn duration_millis_probes() {
+        let probes: [(u64, u32, u64); 9] = [(0, 0, 0x0000000000000000), (0, 1, 0x3eb0c6f7a0b5ed8e), (0, 1500000, 0x3ff8000000000000), (1, 0, 0x408f400000000000), (1, 500000000, 0x4097700000000000), (59, 999999999, 0x40ed4bfffffde722), (3600, 250000000, 0x414b77bd00000000), (86400, 1, 0x4194997000000043), (1000000000, 123456789, 0x426d1a94a20f6e9e)];
+        let mut i = 0;
+        while i < probes.len() {
+            let (secs, nanos, bits) = probes[i];
+            let d = core::time::Duration::new(secs, nanos);
+            let (mut m, mut e, mut s, mut u, mut f) = (0u8, 0u8, 0u8, Unit::None, Option::None);
+            Value::write(&d, Rec { metric_calls: &mut m, error_calls: &mut e, string_calls: &mut s, unit: &mut u, first: &mut f });
+            assert!(m == 1 && e == 0 && s == 0);
+            assert!(u == Unit::Second(NegativeScale::Milli));
+            match f { Some(Observation::Floating(v)) => assert!(v.to_bits() == bits), _ => assert!(false) }
+            i += 1;
+        }
     }
 }
